@@ -39,6 +39,7 @@ type WinScenario struct {
 	Free  bool      `json:"free"`  // free-running: no gates, adds only, quiesce at the end
 	Burst bool      `json:"burst"` // free-running with the trigger goroutine held at its gate until every row is in (producer faster than trigger)
 	Flush bool      `json:"flush"`
+	Perf  *SeqPerf  `json:"perf"` // overflow strategy / buffer sizes / slowed consumer (free-running scenarios)
 }
 
 var pfx = map[string]string{"tumbling": "tw", "sliding": "sw", "session": "ss"}
@@ -180,7 +181,7 @@ func runWin(sc WinScenario) (evs []Ev, inconclusive string) {
 		}
 		return nil
 	}
-	s := newInstance()
+	s := newInstance(perfOptions(sc.Perf)...)
 	sql := WinSQL(sc.Cfg)
 	if err := s.Execute(sql); err != nil {
 		return nil, "execute: " + err.Error()
@@ -193,6 +194,9 @@ func runWin(sc WinScenario) (evs []Ev, inconclusive string) {
 	t00 := time.Now()
 	us := func() int64 { return int64(time.Since(t00) / time.Microsecond) }
 	s.AddSyncSink(func(rs []map[string]any) {
+		if sc.Perf != nil && sc.Perf.SlowSink > 0 {
+			time.Sleep(time.Duration(sc.Perf.SlowSink) * time.Microsecond)
+		}
 		now := us()
 		rows := make([]Ev, 0, len(rs))
 		for _, r := range rs {
